@@ -211,6 +211,57 @@ pub fn run_c18(args: &Args) -> Report {
             }
         }
     }
+    // many files, one of them failing early, few threads: the error must be reported while many results are still
+    // outstanding (nothing may block on them); and verify against outputs that differ from the fresh output in the
+    // middle of a multi-byte character (the mismatch report must not slice there)
+    if args.shard == 1 % args.shards.max(1) {
+        for threads in [0usize, 1, 2, 4] {
+            for mode in ["build", "needed", "verify"] {
+                let mut files: Vec<(String, Vec<u8>)> = vec![("bad.txt.txtpp".into(), b"x\nTXTPP#include missing-file.txt\n".to_vec())];
+                let mut sources = vec!["bad.txt.txtpp".to_string()];
+                for k in 0..40 {
+                    files.push((format!("g{k:02}.txt.txtpp"), format!("good {k}\n").into_bytes()));
+                    sources.push(format!("g{k:02}.txt.txtpp"));
+                }
+                let p = Project { files, dirs: vec![], cmds: vec![], sources: sources.clone(), sig: vec![], expect_error: true };
+                materialize(&p, &pdir);
+                let cfg = RunCfg { mode, trailing: true, recursive: false, threads, inputs: sources.clone() };
+                let body = format!("# {} ; 1 failing source (include of a missing file) named first + 40 good ones, each named as an input\n", cfg.describe());
+                *current.lock().unwrap() = (std::time::Instant::now(), body.clone(), true);
+                let before_panics = PANICS.load(Ordering::SeqCst);
+                let obs = run_impl(&pdir, &cfg, &log);
+                current.lock().unwrap().2 = false;
+                rep.evaluations += 1;
+                rep.sigs.insert(format!("early-error-many-files|{mode}|{threads}|{}", obs.verdict));
+                if obs.verdict == "panic" || PANICS.load(Ordering::SeqCst) > before_panics || obs.verdict == "ok" {
+                    rep.violation("oracle", &format!("C18: early error with many files outstanding: verdict `{}` ({})", obs.verdict, cfg.describe()), &body);
+                }
+            }
+        }
+        for (k, (fresh, stale)) in [("café au lait\n", "cafè au lait\n"), ("日本\n", "日木\n"), ("naïve é\n", "naïve è\n"), ("é\n", "\u{00e8}\n")].iter().enumerate() {
+            let p = Project { files: vec![("m.txt.txtpp".into(), fresh.as_bytes().to_vec()), ("m.txt".into(), stale.as_bytes().to_vec())], dirs: vec![], cmds: vec![], sources: vec!["m.txt.txtpp".into()], sig: vec![], expect_error: true };
+            for cut in [false, true] {
+                materialize(&p, &pdir);
+                if cut {
+                    // the existing output ends inside a multi-byte character
+                    let b = fresh.as_bytes();
+                    let pos = b.iter().position(|x| *x >= 0x80).unwrap_or(0) + 1;
+                    let _ = std::fs::write(pdir.join("m.txt"), &b[..pos]);
+                }
+                let cfg = RunCfg { mode: "verify", trailing: true, recursive: false, threads: 2, inputs: vec![".".to_string()] };
+                let body = format!("# {} ; m.txt.txtpp = {:?}, existing m.txt = {:?} (cut inside a character: {cut})\n", cfg.describe(), fresh, stale);
+                *current.lock().unwrap() = (std::time::Instant::now(), body.clone(), true);
+                let before_panics = PANICS.load(Ordering::SeqCst);
+                let obs = run_impl(&pdir, &cfg, &log);
+                current.lock().unwrap().2 = false;
+                rep.evaluations += 1;
+                rep.sigs.insert(format!("verify-mismatch-inside-char|{k}|{cut}|{}", obs.verdict));
+                if obs.verdict != "err" || PANICS.load(Ordering::SeqCst) > before_panics {
+                    rep.violation("oracle", &format!("C18: verify of an output that differs inside a multi-byte character: verdict `{}` (expected a reported mismatch) {}", obs.verdict, last_panic.lock().unwrap()), &body);
+                }
+            }
+        }
+    }
     for i in 0..nrun {
         let structural = rng.chance(1, 3);
         let opts = GenOpts { allow_run: structural, error_pct: 10, ..GenOpts::default() };
